@@ -144,8 +144,9 @@ def run_case(ctx, rng, index, casedir):
         planned = {"cores": cores, "timeout_scale": scale, "max_groups": ngroups + 2}
         if k == nexec - 1 and rng.random() < 0.2:
             # a small host: realign clamps the requested cores with the CPU count it sees
-            planned["cpu_count"] = rng.choice([1, 2, 3])
-            cores = rng.choice([2, 3, 4, 6])
+            planned["cpu_count"] = rng.choice([1, 2, 3, 4])
+            planned["affinity"] = planned["cpu_count"]  # reported CPU count and usable CPUs agree
+            cores = rng.choice([2, 3, 4, 5, 6, 7])
             planned["cores"] = cores
             kind = "cpu_limited"
             sit["cpu_limited_executions"] += 1
